@@ -512,15 +512,16 @@ class C17(Prop):
     level = 'fault_enumeration'
     rule = ('Enumerated: for 5 modules (tiny, unicode, with error nodes, ~70 lines, empty): EVERY truncation offset of the pickle '
             '(quick: every offset of pickles < 700 bytes, every 3rd / 11th (seed-rotated) of the larger ones; thorough: all), single-byte '
-            'flips at every 17th (quick: 61st) offset x 2 masks (oracle: no exception; a flip that yields a valid pickle of another tree is not claimed), empty file, garbage, partial overwrite (prefix of another pickle + suffix of the old one) at 16 '
+            'flips at every 17th (quick: 61st) offset x 2 masks (oracle: no exception; a flip that yields a valid pickle of another tree is not claimed), empty file, garbage, partial overwrite (prefix of another entry's file as written by the library + tail of this one; prefix of another pickle + suffix of the old one) at 16 '
             'offsets, valid pickles of 6 foreign objects, leftover *.tmp / zero-length siblings, version/cache directory missing or '
-            'replaced by a file; exception injection (ENOSPC, EACCES, EIO, ENOENT) at EVERY call index of open / pickle.dump / '
+            'replaced by a file; exception injection (ENOSPC, EACCES, EIO, ENOENT) at EVERY call index of open / file write / file read / pickle.dump / '
             'pickle.load / os.makedirs / os.path.getmtime / os.utime / os.remove / os.scandir / os.listdir reached under the private '
             'cache directory in the save, load and clean-up scenarios; a two-party interleaving (writer paused after k of n chunks, '
             'reader in between); maintenance with the lock aged past a day and entries with access times on both sides of 30 days. '
             'Generated: random module texts x random fault subsets. Oracle: parse(path, cache=True) does not raise (warnings allowed) '
             'and returns the tree of the file content; a later fault-free parse leaves an entry that loads from disk after a memory '
-            'drop; clean-up never deletes an entry accessed within the limit nor modifies a pickle. Non-trivial: the fault was reached '
+            'drop; clean-up never deletes an entry accessed within the limit nor modifies a pickle; after every case the *process* is intact '
+            '(class dictionaries of the tree classes unchanged, a plain parse works - unpickling corrupted bytes can modify classes). Non-trivial: the fault was reached '
             '(injected call executed / on-disk state changed). Distinct by (module, fault).')
     assumptions = ['runs as root: permission bits are not enforced, read-only directories are modelled by EACCES injection',
                    'two real processes are modelled by the deterministic writer/reader interleaving (thorough adds none beyond that)',
